@@ -565,7 +565,8 @@ struct dirent *__wrap_readdir(DIR *d)
 				cap *= 2;
 				st->ents = __real_realloc(st->ents, cap * sizeof(struct dirent));
 			}
-			memcpy(&st->ents[st->n++], e, sizeof(*e));
+			memset(&st->ents[st->n], 0, sizeof(*e));
+			memcpy(&st->ents[st->n++], e, __builtin_offsetof(struct dirent, d_name) + strlen(e->d_name) + 1);
 		}
 		switch (rd_mode) {
 		case 1:
